@@ -6,13 +6,14 @@ from pathlib import Path
 V = Path(__file__).resolve().parent.parent
 CLAIMED = {
     # id: (category, text, note, technique, design_ref)
-    'C16': ('proof',
+    'C16': ('other',
             'Postcondition of Weather.get_ground_speed (taken from the property statement) discharged by z3 over the real '
             'AST for all headings/airspeeds/winds and every cached state of the Weather object (representation invariant + '
             'preservation = every call history); the statement\'s algebraic clauses are lemmas about the spec formula. On '
             'the current tree one obligation (vector-sum) is refuted by the known east/north exchange, which is recorded '
-            'as a known finding with a proved characterising contract, so the evidence of such a run reports level other '
-            'with the open obligation named.',
+            'as a known finding with a proved characterising contract. Because that obligation is open on the current tree '
+            'the level claimed is other, not proof: 15 of 16 obligations are discharged deductively (all inputs, all call '
+            'histories), one is a recorded defect.',
             'floats as reals; sin/cos/sqrt as uninterpreted functions with axiom instances; xarray isel/interp, file '
             'naming per date and the ISA pressure function (C12) by assumed contracts',
             'contract-based deductive verification: AST->z3 VCs of the real source, sidecar contracts', 'DESIGN 2 C16'),
